@@ -1,6 +1,7 @@
 package gen
 
 import (
+	"fmt"
 	"go/ast"
 	"go/constant"
 	"go/token"
@@ -1024,7 +1025,21 @@ func (b *bounds) countingLoop(fs *ast.ForStmt) (bool, string) {
 			return d == -away
 		}
 		if !b.pure(e) {
-			scope := []ast.Node{fs.Body}
+			// what an iteration that goes round executes: the branches that leave the loop (an `if` of the
+			// body itself that ends in return) contribute their condition only
+			var scope []ast.Node
+			for _, st := range fs.Body.List {
+				if is, ok := st.(*ast.IfStmt); ok && is.Else == nil && len(is.Body.List) > 0 {
+					if _, leaves := is.Body.List[len(is.Body.List)-1].(*ast.ReturnStmt); leaves {
+						if is.Init != nil {
+							scope = append(scope, is.Init)
+						}
+						scope = append(scope, is.Cond)
+						continue
+					}
+				}
+				scope = append(scope, st)
+			}
 			if fs.Post != nil {
 				scope = append(scope, fs.Post)
 			}
@@ -1129,6 +1144,112 @@ func (b *bounds) countingLoop(fs *ast.ForStmt) (bool, string) {
 			}
 			if all && first != nil {
 				kept = append(kept, *first)
+			}
+		}
+	}
+	// a body that ends in return goes round only through its `continue` statements: each sits, with a step
+	// of the counter before it, directly in an `if` of the body itself whose condition bounds the counter
+	// (`if lvl < a.depth() || lvl < b.depth() { lvl++; continue }`)
+	if n := len(fs.Body.List); n > 0 {
+		if _, ends := fs.Body.List[n-1].(*ast.ReturnStmt); ends {
+			var conts []*ast.BranchStmt
+			var scanC func(nd ast.Node, nested bool)
+			scanC = func(nd ast.Node, nested bool) {
+				ast.Inspect(nd, func(x ast.Node) bool {
+					switch y := x.(type) {
+					case *ast.FuncLit:
+						return false
+					case *ast.ForStmt:
+						if y != fs {
+							scanC(y.Body, true)
+							return false
+						}
+					case *ast.RangeStmt:
+						scanC(y.Body, true)
+						return false
+					case *ast.BranchStmt:
+						if y.Tok == token.CONTINUE && (!nested || y.Label != nil) {
+							conts = append(conts, y)
+						}
+					}
+					return true
+				})
+			}
+			scanC(fs.Body, false)
+			okAll := len(conts) > 0
+			var guards []cmp
+			for _, ct := range conts {
+				found := false
+				for _, st := range fs.Body.List {
+					is, ok := st.(*ast.IfStmt)
+					if !ok || is.Init != nil || len(is.Body.List) < 2 || is.Body.List[len(is.Body.List)-1] != ast.Stmt(ct) {
+						continue
+					}
+					// the condition: comparisons of one counter with limits, joined by ||
+					var first *cmp
+					good := true
+					for _, dj := range disjuncts(is.Cond) {
+						be, ok := ast.Unparen(dj).(*ast.BinaryExpr)
+						if !ok {
+							good = false
+							break
+						}
+						var c cmp
+						switch be.Op {
+						case token.LSS, token.LEQ:
+							c = cmp{be.X, be.Y, nil}
+						case token.GTR, token.GEQ:
+							c = cmp{be.Y, be.X, nil}
+						default:
+							good = false
+						}
+						if !good {
+							break
+						}
+						if first == nil {
+							first = &c
+						} else if types.ExprString(ast.Unparen(first.small)) == types.ExprString(ast.Unparen(c.small)) {
+							first.more = append(first.more, c.big)
+						} else {
+							good = false
+							break
+						}
+					}
+					if !good || first == nil {
+						continue
+					}
+					// a step of the counter directly in the branch
+					stepped := false
+					if id, ok := ast.Unparen(first.small).(*ast.Ident); ok {
+						for _, bs := range is.Body.List[:len(is.Body.List)-1] {
+							if b.postStep(bs, b.info.ObjectOf(id)) > 0 {
+								stepped = true
+							}
+						}
+					}
+					if stepped {
+						guards = append(guards, *first)
+						found = true
+					}
+				}
+				if !found {
+					okAll = false
+				}
+			}
+			if okAll {
+				for _, g := range guards {
+					d, _ := dir(g.small)
+					st := d > 0 && still(g.big, +1)
+					for _, m := range g.more {
+						st = st && still(m, +1)
+					}
+					if !st {
+						okAll = false
+					}
+				}
+			}
+			if okAll {
+				return true, "counting loop: the body ends in return, every `continue` sits behind a test that bounds the counter " + types.ExprString(guards[0].small) + " and a step of it, and the limits stand still"
 			}
 		}
 	}
@@ -1319,5 +1440,518 @@ func paramIsMembership(prog *load.Program, info *types.Info, fd *ast.FuncDecl, v
 			}
 		}
 	}
+	return calls > 0 && calls == good && uses == calls
+}
+
+// worklistLoop: `for len(w) > 0 { t := w[len(w)-1]; w = w[:len(w)-1]; … w = append(w, <components of t>) … }`
+// (also the tuple form of the pop, and a queue popped at the front). The loop terminates because go/types
+// types are finite trees: every iteration replaces one pending type by strict components of it, so the
+// multiset of pending types decreases in the multiset order. Decided: the condition is len(w) > 0 for a
+// local slice w; the body begins (statements of the body itself) by taking one element off w into a local
+// t that is not written again; every other write of w inside the loop — in the body or in a function
+// literal bound once to a local that the loop calls — appends values that are strict components of t (of
+// the symbol of a type switch over t), and w is written nowhere else between the loop's start and end.
+func worklistLoop(prog *load.Program, info *types.Info, fd *ast.FuncDecl, fs *ast.ForStmt) (bool, string) {
+	if fs.Cond == nil || fs.Init != nil || fs.Post != nil {
+		return false, ""
+	}
+	// the condition
+	var w types.Object
+	isLenOf := func(e ast.Expr) types.Object {
+		call, ok := ast.Unparen(e).(*ast.CallExpr)
+		if !ok || len(call.Args) != 1 {
+			return nil
+		}
+		id, ok := ast.Unparen(call.Fun).(*ast.Ident)
+		if !ok || id.Name != "len" {
+			return nil
+		}
+		if _, isB := info.Uses[id].(*types.Builtin); !isB {
+			return nil
+		}
+		if wid, ok := ast.Unparen(call.Args[0]).(*ast.Ident); ok {
+			return info.ObjectOf(wid)
+		}
+		return nil
+	}
+	isZero := func(e ast.Expr) bool {
+		tv := info.Types[e]
+		return tv.Value != nil && tv.Value.String() == "0"
+	}
+	if be, ok := ast.Unparen(fs.Cond).(*ast.BinaryExpr); ok {
+		switch {
+		case (be.Op == token.GTR || be.Op == token.NEQ) && isZero(be.Y):
+			w = isLenOf(be.X)
+		case (be.Op == token.LSS || be.Op == token.NEQ) && isZero(be.X):
+			w = isLenOf(be.Y)
+		}
+	}
+	wv, _ := w.(*types.Var)
+	if wv == nil || wv.IsField() || wv.Pkg() == nil || wv.Parent() == wv.Pkg().Scope() {
+		return false, ""
+	}
+	if _, isSlice := wv.Type().Underlying().(*types.Slice); !isSlice {
+		return false, ""
+	}
+	isW := func(e ast.Expr) bool {
+		id, ok := ast.Unparen(e).(*ast.Ident)
+		return ok && info.ObjectOf(id) == w
+	}
+	// the pop: among the leading statements of the body
+	isLast := func(e ast.Expr) bool { // w[len(w)-1]
+		ix, ok := ast.Unparen(e).(*ast.IndexExpr)
+		if !ok || !isW(ix.X) {
+			return false
+		}
+		be, ok := ast.Unparen(ix.Index).(*ast.BinaryExpr)
+		return ok && be.Op == token.SUB && isLenOf(be.X) == w && info.Types[be.Y].Value != nil && info.Types[be.Y].Value.String() == "1"
+	}
+	isFirst := func(e ast.Expr) bool { // w[0]
+		ix, ok := ast.Unparen(e).(*ast.IndexExpr)
+		return ok && isW(ix.X) && isZero(ix.Index)
+	}
+	dropLast := func(e ast.Expr) bool { // w[:len(w)-1]
+		se, ok := ast.Unparen(e).(*ast.SliceExpr)
+		if !ok || !isW(se.X) || se.Low != nil || se.High == nil || se.Slice3 {
+			return false
+		}
+		be, ok := ast.Unparen(se.High).(*ast.BinaryExpr)
+		return ok && be.Op == token.SUB && isLenOf(be.X) == w && info.Types[be.Y].Value != nil && info.Types[be.Y].Value.String() == "1"
+	}
+	dropFirst := func(e ast.Expr) bool { // w[1:]
+		se, ok := ast.Unparen(e).(*ast.SliceExpr)
+		return ok && isW(se.X) && se.High == nil && se.Low != nil && !se.Slice3 && info.Types[se.Low].Value != nil && info.Types[se.Low].Value.String() == "1"
+	}
+	var popped types.Object
+	var popStmts []ast.Stmt
+	take, drop := false, false
+	back := false
+	for _, st := range fs.Body.List {
+		as, ok := st.(*ast.AssignStmt)
+		if !ok {
+			break
+		}
+		progress := false
+		if len(as.Lhs) == 2 && len(as.Rhs) == 2 && isW(as.Lhs[1]) {
+			// t, w = w[len(w)-1], w[:len(w)-1]
+			if tid, ok := ast.Unparen(as.Lhs[0]).(*ast.Ident); ok && ((isLast(as.Rhs[0]) && dropLast(as.Rhs[1])) || (isFirst(as.Rhs[0]) && dropFirst(as.Rhs[1]))) {
+				popped, take, drop, progress = info.ObjectOf(tid), true, true, true
+				back = isLast(as.Rhs[0])
+			}
+		}
+		if len(as.Lhs) == 1 && len(as.Rhs) == 1 {
+			if tid, ok := ast.Unparen(as.Lhs[0]).(*ast.Ident); ok && !take && (isLast(as.Rhs[0]) || isFirst(as.Rhs[0])) {
+				popped, take, progress = info.ObjectOf(tid), true, true
+				back = isLast(as.Rhs[0])
+			} else if isW(as.Lhs[0]) && take && !drop && ((back && dropLast(as.Rhs[0])) || (!back && dropFirst(as.Rhs[0]))) {
+				drop, progress = true, true
+			}
+		}
+		if !progress {
+			break
+		}
+		popStmts = append(popStmts, st)
+		if take && drop {
+			break
+		}
+	}
+	if !take || !drop || popped == nil {
+		return false, "a loop on len(" + w.Name() + ") > 0 whose body does not begin by taking one element off it"
+	}
+	inPop := func(n ast.Node) bool {
+		for _, st := range popStmts {
+			if within(st, n) {
+				return true
+			}
+		}
+		return false
+	}
+	// the popped variable is written by the pop only (a type switch may re-bind the name: another object)
+	okAll := true
+	ast.Inspect(fd, func(n ast.Node) bool {
+		switch x := n.(type) {
+		case *ast.AssignStmt:
+			for _, l := range x.Lhs {
+				if id, ok := ast.Unparen(l).(*ast.Ident); ok && info.ObjectOf(id) == popped && !inPop(x) {
+					// a declaration before the loop (var t T) is fine, another write is not
+					if within(fs, x) {
+						okAll = false
+					}
+				}
+			}
+		case *ast.UnaryExpr:
+			if id, ok := ast.Unparen(x.X).(*ast.Ident); ok && x.Op == token.AND && (info.ObjectOf(id) == popped || info.ObjectOf(id) == w) {
+				okAll = false
+			}
+		}
+		return true
+	})
+	if !okAll {
+		return false, "a work list whose popped element or list is written or addressed elsewhere in the loop"
+	}
+	// strict components of the popped value: chains of structural accessors rooted at it or at the symbol of
+	// a type switch over it
+	switchSyms := map[types.Object]bool{}
+	ast.Inspect(fs.Body, func(n ast.Node) bool {
+		ts, ok := n.(*ast.TypeSwitchStmt)
+		if !ok {
+			return true
+		}
+		var x ast.Expr
+		switch a := ts.Assign.(type) {
+		case *ast.AssignStmt:
+			if ta, ok := ast.Unparen(a.Rhs[0]).(*ast.TypeAssertExpr); ok {
+				x = ta.X
+			}
+		case *ast.ExprStmt:
+			if ta, ok := ast.Unparen(a.X).(*ast.TypeAssertExpr); ok {
+				x = ta.X
+			}
+		}
+		if id, ok := ast.Unparen(x).(*ast.Ident); ok && info.ObjectOf(id) == popped {
+			for _, c := range ts.Body.List {
+				if o := info.Implicits[c]; o != nil {
+					switchSyms[o] = true
+				}
+			}
+		}
+		return true
+	})
+	var component func(e ast.Expr, depth int) bool
+	component = func(e ast.Expr, depth int) bool {
+		if depth > 6 {
+			return false
+		}
+		n := 0
+		e = ast.Unparen(e)
+		for {
+			switch x := e.(type) {
+			case *ast.TypeAssertExpr:
+				e = ast.Unparen(x.X)
+				continue
+			case *ast.CallExpr:
+				sel, ok := ast.Unparen(x.Fun).(*ast.SelectorExpr)
+				if !ok {
+					// at(i) inside a function literal bound to a local: what the loop hands in
+					if fid, isID := ast.Unparen(x.Fun).(*ast.Ident); isID {
+						return callbackComponentsOf(info, fd, fid, func(a ast.Expr) bool { return component(a, depth+1) }, func(recv ast.Expr) bool {
+							id, ok := ast.Unparen(recv).(*ast.Ident)
+							if ok && (info.ObjectOf(id) == popped || switchSyms[info.ObjectOf(id)]) {
+								return true
+							}
+							return component(recv, depth+1)
+						})
+					}
+					return false
+				}
+				if !structuralAccessors[sel.Sel.Name] {
+					return false
+				}
+				n++
+				e = ast.Unparen(sel.X)
+				continue
+			case *ast.Ident:
+				o := info.ObjectOf(x)
+				if o == popped || switchSyms[o] {
+					return n > 0
+				}
+				// a local defined once from a component (targs := t.TypeArgs())
+				def, ndef := ast.Expr(nil), 0
+				ast.Inspect(fs.Body, func(nn ast.Node) bool {
+					if as, ok := nn.(*ast.AssignStmt); ok && len(as.Lhs) == len(as.Rhs) {
+						for i, l := range as.Lhs {
+							if lid, ok := ast.Unparen(l).(*ast.Ident); ok && info.ObjectOf(lid) == o {
+								ndef++
+								def = as.Rhs[i]
+							}
+						}
+					}
+					return true
+				})
+				if ndef == 1 && def != nil {
+					if n > 0 {
+						// an accessor chain on a local that is itself reached from the popped value
+						return component(def, depth+1) || rootedAt(info, def, popped, switchSyms)
+					}
+					return component(def, depth+1)
+				}
+				return false
+			default:
+				return false
+			}
+		}
+	}
+	// the general component analysis (locals, lists filled with components, closures and their parameters)
+	// speaks about "the value the function switches on": usable here when every type switch of the function
+	// is one over the popped value
+	onlyPoppedSwitches := true
+	ast.Inspect(fd, func(n ast.Node) bool {
+		ts, ok := n.(*ast.TypeSwitchStmt)
+		if !ok {
+			return true
+		}
+		var x ast.Expr
+		switch a := ts.Assign.(type) {
+		case *ast.AssignStmt:
+			if ta, ok := ast.Unparen(a.Rhs[0]).(*ast.TypeAssertExpr); ok {
+				x = ta.X
+			}
+		case *ast.ExprStmt:
+			if ta, ok := ast.Unparen(a.X).(*ast.TypeAssertExpr); ok {
+				x = ta.X
+			}
+		}
+		if id, ok := ast.Unparen(x).(*ast.Ident); !ok || !within(fs, ts) || (info.ObjectOf(id) != popped && !switchSyms[info.ObjectOf(id)]) {
+			onlyPoppedSwitches = false
+		}
+		return true
+	})
+	own := component
+	component = func(e ast.Expr, depth int) bool {
+		if own(e, depth) {
+			return true
+		}
+		return onlyPoppedSwitches && len(switchSyms) > 0 && structuralFrom(prog, info, fd, e, true, depth)
+	}
+	// every other write of w inside the loop (and inside literals the function binds to locals) appends components
+	napp := 0
+	var bad []string
+	checkWrite := func(as *ast.AssignStmt, i int) {
+		call, ok := ast.Unparen(as.Rhs[i]).(*ast.CallExpr)
+		if ok {
+			if id, isID := ast.Unparen(call.Fun).(*ast.Ident); isID {
+				if bi, isB := info.Uses[id].(*types.Builtin); isB && bi.Name() == "append" && len(call.Args) >= 2 && isW(call.Args[0]) && !call.Ellipsis.IsValid() {
+					for _, a := range call.Args[1:] {
+						if !component(a, 0) {
+							bad = append(bad, types.ExprString(a))
+						}
+					}
+					napp++
+					return
+				}
+			}
+		}
+		bad = append(bad, types.ExprString(as.Rhs[i]))
+	}
+	ast.Inspect(fd.Body, func(n ast.Node) bool {
+		as, ok := n.(*ast.AssignStmt)
+		if !ok || inPop(as) {
+			return true
+		}
+		inside := within(fs, as)
+		if !inside {
+			// a function literal bound to a local before the loop and called from it counts as part of the loop
+			for _, enc := range enclosingLits(fd, as) {
+				if litCalledWithin(info, fd, enc, fs) {
+					inside = true
+				}
+			}
+		}
+		if !inside {
+			return true
+		}
+		for i, l := range as.Lhs {
+			if isW(l) {
+				if len(as.Lhs) != len(as.Rhs) {
+					bad = append(bad, "multi-value assignment")
+					continue
+				}
+				checkWrite(as, i)
+			}
+			if ix, ok := ast.Unparen(l).(*ast.IndexExpr); ok && isW(ix.X) {
+				bad = append(bad, types.ExprString(l)+" = …")
+			}
+		}
+		return true
+	})
+	if len(bad) > 0 {
+		return false, "a work list that is given something other than strict components of the element just taken off: " + strings.Join(bad, ", ")
+	}
+	// w is not handed to anything inside the loop (a callee could grow it)
+	escapes := false
+	ast.Inspect(fs.Body, func(n ast.Node) bool {
+		call, ok := n.(*ast.CallExpr)
+		if !ok {
+			return true
+		}
+		if id, isID := ast.Unparen(call.Fun).(*ast.Ident); isID {
+			if bi, isB := info.Uses[id].(*types.Builtin); isB && (bi.Name() == "len" || bi.Name() == "append" || bi.Name() == "cap") {
+				return true
+			}
+		}
+		for _, a := range call.Args {
+			if isW(a) {
+				escapes = true
+			}
+		}
+		return true
+	})
+	if escapes {
+		return false, "a work list that is handed to another function inside the loop"
+	}
+	return true, fmt.Sprintf("work list: every iteration takes one pending type off %s and puts back only strict components of it (%d append site(s)); types are finite trees, so the multiset of pending types decreases", w.Name(), napp)
+}
+
+// rootedAt: the expression is an accessor chain (any go/types getters) on the popped value or a switch symbol.
+func rootedAt(info *types.Info, e ast.Expr, popped types.Object, syms map[types.Object]bool) bool {
+	for {
+		switch x := ast.Unparen(e).(type) {
+		case *ast.CallExpr:
+			sel, ok := ast.Unparen(x.Fun).(*ast.SelectorExpr)
+			if !ok {
+				return false
+			}
+			e = sel.X
+		case *ast.TypeAssertExpr:
+			e = x.X
+		case *ast.Ident:
+			o := info.ObjectOf(x)
+			return o == popped || syms[o]
+		default:
+			return false
+		}
+	}
+}
+
+// enclosingLits: the function literals of fd that contain the node, innermost last.
+func enclosingLits(fd *ast.FuncDecl, n ast.Node) []*ast.FuncLit {
+	var out []*ast.FuncLit
+	ast.Inspect(fd, func(x ast.Node) bool {
+		if fl, ok := x.(*ast.FuncLit); ok && within(fl, n) {
+			out = append(out, fl)
+		}
+		return true
+	})
+	return out
+}
+
+// litCalledWithin: the literal is bound once to a local of fd and that local is called inside scope.
+func litCalledWithin(info *types.Info, fd *ast.FuncDecl, lit *ast.FuncLit, scope ast.Node) bool {
+	var holder types.Object
+	ast.Inspect(fd, func(x ast.Node) bool {
+		if as, ok := x.(*ast.AssignStmt); ok && len(as.Lhs) == len(as.Rhs) {
+			for i, r := range as.Rhs {
+				if ast.Unparen(r) == ast.Expr(lit) {
+					if id, ok := ast.Unparen(as.Lhs[i]).(*ast.Ident); ok {
+						holder = info.ObjectOf(id)
+					}
+				}
+			}
+		}
+		return true
+	})
+	if holder == nil {
+		return false
+	}
+	called := false
+	ast.Inspect(scope, func(x ast.Node) bool {
+		if call, ok := x.(*ast.CallExpr); ok {
+			if id, ok := ast.Unparen(call.Fun).(*ast.Ident); ok && info.ObjectOf(id) == holder {
+				called = true
+			}
+		}
+		return true
+	})
+	return called
+}
+
+// callbackComponentsOf: fid names a function-typed parameter of a function literal bound once to a local of
+// fd; every call of that local passes, in that position, a method value of a structural accessor on a
+// receiver accepted by okRecv, or a function literal all of whose returns are accepted by okExpr.
+func callbackComponentsOf(info *types.Info, fd *ast.FuncDecl, fid *ast.Ident, okExpr func(ast.Expr) bool, okRecv func(ast.Expr) bool) bool {
+	v := info.ObjectOf(fid)
+	if v == nil {
+		return false
+	}
+	var lit *ast.FuncLit
+	pi := -1
+	ast.Inspect(fd, func(nn ast.Node) bool {
+		fl, ok := nn.(*ast.FuncLit)
+		if !ok || fl.Type.Params == nil {
+			return true
+		}
+		k := 0
+		for _, f := range fl.Type.Params.List {
+			for _, nm := range f.Names {
+				if info.Defs[nm] == v {
+					lit, pi = fl, k
+				}
+				k++
+			}
+		}
+		return true
+	})
+	if lit == nil {
+		return false
+	}
+	var holder types.Object
+	ast.Inspect(fd, func(nn ast.Node) bool {
+		if as, ok := nn.(*ast.AssignStmt); ok && len(as.Lhs) == len(as.Rhs) {
+			for i, r := range as.Rhs {
+				if ast.Unparen(r) == ast.Expr(lit) {
+					if lid, ok := ast.Unparen(as.Lhs[i]).(*ast.Ident); ok {
+						holder = info.ObjectOf(lid)
+					}
+				}
+			}
+		}
+		return true
+	})
+	if holder == nil {
+		return false
+	}
+	nbind := 0
+	ast.Inspect(fd, func(nn ast.Node) bool {
+		if as, ok := nn.(*ast.AssignStmt); ok {
+			for _, l := range as.Lhs {
+				if lid, ok := ast.Unparen(l).(*ast.Ident); ok && info.ObjectOf(lid) == holder {
+					nbind++
+				}
+			}
+		}
+		return true
+	})
+	if nbind != 1 {
+		return false
+	}
+	calls, good, uses := 0, 0, 0
+	ast.Inspect(fd, func(nn ast.Node) bool {
+		if id, ok := nn.(*ast.Ident); ok && info.Uses[id] == holder {
+			uses++
+		}
+		call, ok := nn.(*ast.CallExpr)
+		if !ok {
+			return true
+		}
+		cid, ok := ast.Unparen(call.Fun).(*ast.Ident)
+		if !ok || info.ObjectOf(cid) != holder || pi >= len(call.Args) {
+			return true
+		}
+		calls++
+		switch a := ast.Unparen(call.Args[pi]).(type) {
+		case *ast.SelectorExpr:
+			if _, isFn := info.ObjectOf(a.Sel).(*types.Func); isFn && structuralAccessors[a.Sel.Name] && okRecv(a.X) {
+				good++
+			}
+		case *ast.FuncLit:
+			okAll, n := true, 0
+			ast.Inspect(a.Body, func(m ast.Node) bool {
+				if _, isLit := m.(*ast.FuncLit); isLit {
+					return false
+				}
+				if rs, ok := m.(*ast.ReturnStmt); ok {
+					n++
+					if len(rs.Results) != 1 || !okExpr(rs.Results[0]) {
+						okAll = false
+					}
+				}
+				return true
+			})
+			if okAll && n > 0 {
+				good++
+			}
+		}
+		return true
+	})
 	return calls > 0 && calls == good && uses == calls
 }
